@@ -40,9 +40,6 @@ class C05(Prop):
     quick_budget_s = 90
     thorough_budget_s = 600
 
-    def deductive(self, tier):
-        return []
-
     # ---------------------------------------------------------------- bounded tier
     def cases(self, tier, seed):
         from ..bounded import dp_harness as H
